@@ -220,6 +220,16 @@ type SocksSpec struct {
 	Reqs    []SReq    `json:"reqs,omitempty"`
 	Auth    *AuthSpec `json:"auth,omitempty"`
 	ReadBuf int       `json:"readBuf,omitempty"` // application read buffer for tunnel replies (0 = 65536)
+	// Egress: how the SOCKS5 egress proxy (reached through PROXY rules) behaves for the k-th connection it
+	// accepts (cycled). "" well-behaved; "rst-after-reply" / "fin-after-reply" end the control connection ArgUs after
+	// the reply; "rst-before-reply", "garbage-reply", "short-reply", "bad-atyp-reply", "error-reply",
+	// "huge-domain-reply", "silent" misbehave at the reply.
+	Egress []EgressBehaviour `json:"egress,omitempty"`
+}
+
+type EgressBehaviour struct {
+	Mode  string `json:"mode"`
+	ArgUs int64  `json:"argUs,omitempty"`
 }
 
 type ERule struct {
@@ -249,6 +259,10 @@ type SDgram struct {
 	Fill      int    `json:"fill,omitempty"`      // 0 PRF, 1 all 0x00, 2 all 0xff, 3 alternating 00/ff
 	Malformed string `json:"malformed,omitempty"` // "" | bad-prefix | bad-suffix | truncated | short-header | frag
 	GapUs     int64  `json:"gapUs,omitempty"`
+	// SplitAt (well-formed datagrams, not through the wrapper): the application frames the datagram
+	// itself (0x00 | length | packet | 0xff, as documented) and writes the frame in pieces cut at
+	// these offsets, a millisecond apart, so the carrying stream delivers it in several chunks
+	SplitAt []int `json:"splitAt,omitempty"`
 }
 
 // AuthSpec is a batch of SOCKS5 negotiations against one configuration (C11).
@@ -320,6 +334,10 @@ type RefPeer struct {
 	LEPadBit       int    `json:"lePadBit,omitempty"`
 	MaxChunk       int    `json:"maxChunk,omitempty"` // echo/data segment payload size cap
 	AckOnly        bool   `json:"ackOnly,omitempty"`  // interleave ack-only segments
+	// OpenRespPayload (reference server): whatever the server has to say when the open request
+	// arrives (the SOCKS reply and the first echoed bytes, up to 1024) rides on the
+	// open-session response, as the protocol description allows for any session segment
+	OpenRespPayload bool `json:"openRespPayload,omitempty"`
 }
 
 // History is an operation history against one component under the virtual
